@@ -1055,6 +1055,23 @@ pub fn yen_corpus() -> Vec<KCase> {
     c.base.astar = Some(Some(1.0));
     c.bf_ok = false;
     v.push(c);
+    // KNOWN FINDING yens/accept-all-returns-fewer (Lean C13.yens_accept_all_fewer_counterexample): no candidate
+    // is kept from one turn to the next and spurs are taken off the route accepted last only.  0-e0->1-e1->2-e2->3-e3->4
+    // (1, 0.1, 0.4, 0.4), direct e4: 1->4 (1), detours 2-e5->5-e6->4 (2, 2) and 2-e7->6-e8->4 (3, 3), k = 3.
+    // AcceptAll: second route [e0,e4] has two edges, the next turn has no spur index: TWO routes.  Distance-weighted
+    // cosine 0.5: [e0,e4] ranks 0.61 (similar), [e0,e1,e5,e6] ranks 0.29 and is accepted, then [e0,e1,e7,e8]: THREE
+    let mut c = ycase(
+        base_case(
+            vec![(0, 1, 1.0), (1, 2, 0.1), (2, 3, 0.4), (3, 4, 0.4), (1, 4, 1.0), (2, 5, 2.0), (5, 4, 2.0), (2, 6, 3.0), (6, 4, 3.0)],
+            7,
+            0,
+            4,
+        ),
+        3,
+        "yen-accept-all-fewer",
+    );
+    c.sim = Some(Sim::DistW(0.5));
+    v.push(c);
     v
 }
 
@@ -1707,6 +1724,42 @@ fn run_yen_child(ctx: &mut Ctx, idx: usize, kc: &KCase, stream: Stream) -> Vec<V
             }
             if let Some(k) = k_eff {
                 oracle_ok(ctx, idx, kc, &b, r, k, reopened(&ex.scheds));
+                // 7. AcceptAll returns at least as many routes as any threshold on the same query (FALSE of Yen's
+                // algorithm: known finding yens/accept-all-returns-fewer, corpus yen-accept-all-fewer)
+                if let Some(sim) = &kc.sim {
+                    if threshold(sim).is_some() {
+                        let aa = exec_ksp(kc, &b, &Some(Sim::AcceptAll));
+                        if !exhausted.load(Ordering::Relaxed) {
+                            match &aa.outcome {
+                                Outcome::Ok(ra) => {
+                                    ctx.count("yen_compared_with_accept_all");
+                                    if ra.routes.len() < r.routes.len() {
+                                        ctx.fail(
+                                            idx,
+                                            "yens/accept-all-returns-fewer",
+                                            format!(
+                                                "AcceptAll returned {} routes {:?}, {:?} returned {} {:?} (k = {})",
+                                                ra.routes.len(),
+                                                ra.routes.iter().map(|x| route_ids(x)).collect::<Vec<_>>(),
+                                                sim,
+                                                r.routes.len(),
+                                                r.routes.iter().map(|x| route_ids(x)).collect::<Vec<_>>(),
+                                                k
+                                            ),
+                                        );
+                                    }
+                                    if ra.routes.len() > r.routes.len() {
+                                        ctx.count("yen_threshold_rejected_an_alternative");
+                                    }
+                                }
+                                Outcome::Err(ek) => ctx.fail(idx, "yens/accept-all-fails", format!("AcceptAll failed with {} where {:?} succeeded", ek, sim)),
+                            }
+                        }
+                    }
+                }
+                if kc.label == "yen-accept-all-fewer" && r.routes.len() != 3 {
+                    ctx.count("yen_accept_all_fewer_witness_changed");
+                }
             }
             if matches!(&plain.outcome, Outcome::Err(pk) if pk == "nopath") && !r.routes.is_empty() {
                 ctx.fail(idx, "yens/route-to-unreachable", "the plain search finds no path but Yen returned routes".into());
